@@ -138,6 +138,11 @@ elif self.save_iterations:
         fin = [n for n in walk_no_nested(f.node) if isinstance(n, ast.If) and 'np.isfinite' in unparse(inline_locals(f.node, n.test)) and isinstance(inline_locals(f.node, n.test), ast.UnaryOp)]
         if len(fin) == 1 and not any(x is guard[0] for st_ in fin[0].orelse for x in ast.walk(st_)) and not any(x is guard[0] for x in ast.walk(fin[0])):
             unguarded = 'the iteration is saved whether or not the derivatives are finite (the saving branch is not the alternative of the finiteness test): a point with NaN / infinite derivatives can become the restart point'
+    if not ok and unguarded is None and len(guard) == 1:
+        # the alternative of a NaN test only: infinite derivatives pass
+        nan_only = [n for n in walk_no_nested(f.node) if isinstance(n, ast.If) and re.fullmatch(r'np\.isnan\(.*\)', unparse(inline_locals(f.node, n.test))) and any(x is guard[0] for st_ in n.orelse for x in ast.walk(st_))]
+        if nan_only:
+            unguarded = f'the iteration is saved whenever `{unparse(nan_only[0].test)}` is false: a gradient with an infinite entry is not NaN, so a point with infinite derivatives can become the restart point (the test must be np.isfinite)'
     ctx.add('C15.R3', 'iter-writer:best-so-far', ok if (ok or unguarded) else None, (f.file, guard[0].lineno if guard else f.line),
             'written only with finite derivatives and f >= bestIteration; the marker is raised to f on every write' if ok else (unguarded or 'the best-so-far discipline of the iteration file is not in the expected form (guard, marker update, finite-derivative test)'), det, positive=bool(unguarded))
     e = B.methods['estimate']
